@@ -1032,6 +1032,26 @@ func Explore(prog *Program, cfg Config) (*RunReport, error) {
 // its decision prefix. A path on which the solver dies three times is an
 // engine error (exit 2), never a verdict.
 func (e *Engine) runPathRetry(wk *worker, fn *ssaFunction, it workItem) (res PathResult) {
+	// Solver processes are recycled between paths: a long incremental session
+	// makes z3 4.8.12 grow to several GB (16 workers x 3 solvers ran the machine
+	// out of memory in the thorough tier).
+	recycle := func(s *Solver, kind SolverKind) *Solver {
+		if s.Queries-s.recycledAt < 1000 {
+			return s
+		}
+		ns, err := NewSolver(kind, e.cfg.TimeoutMs)
+		if err != nil {
+			return s
+		}
+		ns.Queries, ns.Time = s.Queries, s.Time
+		ns.recycledAt = s.Queries
+		s.Close()
+		return ns
+	}
+	wk.solver = recycle(wk.solver, e.cfg.Solver)
+	for i := range wk.cross {
+		wk.cross[i] = recycle(wk.cross[i], e.cfg.CrossCheck[i])
+	}
 	for attempt := 0; attempt < 3; attempt++ {
 		died := false
 		func() {
